@@ -403,6 +403,7 @@ class Only:
         self._c, self._rule, self._as, self._parts = check, rule, as_rule, parts
         self.prog = check.prog
         self.tier = check.tier
+        self.prop = getattr(check, "prop", None)
 
     def _keep(self, rule, key):
         return rule == self._rule and any(x in key for x in self._parts)
